@@ -24,7 +24,9 @@ PROPERTY = "C19"
 RULE = ("Regressors: 4-15 samples, X of order 2-4 including the sample mode (sides 2-4; thorough: order up to 5), y scalar / "
         "vector (1-3 outputs) / order-2 tensor (sides 1-3) per sample for CPRegressor, scalar for TuckerRegressor, ranks 1-3, "
         "reg_W in {1e-3..10}, n_iter_max in {1,2,3,10,30}, tol in {default, 1e-1 (early stop)}, int seed or RandomState, "
-        "Gaussian / small-integer data, C / Fortran / strided memory layout of X, fresh X with 1-5 samples. The weight "
+        "Gaussian / small-integer data, optional dead slice (all-zero / constant slice of one X mode at its first, last or a "
+        "middle index), every array handed to fit / predict / transform in a drawn memory layout (C, Fortran, transposed, "
+        "strided, offset view), integer / bool X at predict, fresh X with 1-5 samples. The weight "
         "'tensor' must have order >= 2 (matrix X with scalar y is outside the domain: a CP/Tucker form of a vector). "
         "CP_PLSR: X order 2-4, Y vector or matrix (1-3 columns), 1-3 components limited to min(n_samples-1, #features) "
         "(more cannot be supported by the centred data), Gaussian data for the metamorphic relations, shifts k/4 in [-8,8]; "
@@ -284,10 +286,10 @@ def _support(X):
 def _plsr_fit(case, X, Y):
     kw = {} if case["iters"] is None else {"n_iter_max": case["iters"]}
     e = CP_PLSR(case["ncomp"], **kw)
-    if case.get("xkind") == "int" and case["ncomp"] > _support(X):
-        # integer data are exhausted *exactly*: the next loading is 0/0 and the library hands NaN scores to
+    if (case.get("xkind") == "int" or case.get("dead")) and case["ncomp"] > _support(X):
+        # integer data / data with dead slices are exhausted *exactly*: the next loading is 0/0 and the library hands NaN scores to
         # LAPACK's lstsq, which raises LinAlgError or does not return at all (uninterruptible) -> not executed
-        discard("components not supported by the centred (integer) data")
+        discard("components not supported by the centred (integer / dead-slice) data")
     try:
         e.fit(_L(X, case, 0), _L(Y, case, 1))
     except np.linalg.LinAlgError:
@@ -429,7 +431,10 @@ def o_plsr_int(case):
     # integer data at fit: same values as floats must give the same model (HEAD: exactly the same, 2c4d025)
     Xi, Xf = (X, X)
     Yi, Yf = (Y, Y)
-    if case["fit_int"] == "X":
+    # integer Y is combined only with generic X: integer Y together with integer / dead-slice X can make X_res^T y_res
+    # vanish *exactly* for a component the rank of X would support (finite termination of the PLS recursion): 0/0 again
+    mode = "X" if (case["xkind"] == "int" or case.get("dead")) else case["fit_int"]
+    if mode == "X":
         Xi, Xf = _cast(X, case["pdtype"])
     else:
         Yi, Yf = _cast(Y, "int64" if case["pdtype"] in ("uint8", "bool") else case["pdtype"])
@@ -438,9 +443,17 @@ def o_plsr_int(case):
             discard("integer Y is constant in every column")
     if case["ncomp"] > _support(Xf):
         discard("components not supported by the centred (integer) data")
-    ci = dict(case, xkind="int")
+    # 0/1 data with 4-15 samples often have tied spectra: the PLS recursion then terminates after fewer components than
+    # the rank supports (X_res^T y_res = 0 exactly) -> one component only for bool
+    ci = dict(case, xkind="int", ncomp=1 if case["pdtype"] == "bool" else case["ncomp"])
+    try:
+        ef = _plsr_fit(ci, Xf, Yf)
+    except np.linalg.LinAlgError:
+        # reference behaviour = the float fit of the same integer values; if that one already fails the data are
+        # degenerate for PLS (exact early termination) and the comparison is void
+        discard("float fit of the same integer values fails too (exact early termination of the PLS recursion)")
     ei = _plsr_fit(ci, Xi, Yi)
-    ef = _plsr_fit(ci, Xf, Yf)
+    case = ci
     a = _plsr_attrs(ef, case, "plsr/int/fit-float", X=Xf)
     b = _plsr_attrs(ei, case, "plsr/int/fit-integer", X=Xf)
     for i in range(len(a[0])):
@@ -450,7 +463,7 @@ def o_plsr_int(case):
     close(b[2], a[2], "plsr/int/fit/coef_", rel=REL, scale=max(float(np.max(np.abs(a[2]))), 1e-300))
     pf = as_array(ef.predict(_L(Xnew, case, 2)), "plsr/int/fit/predict")
     close(ei.predict(_L(Xnew, case, 2)), pf, "plsr/int/fit/predict", rel=REL, scale=max(float(np.max(np.abs(pf))), 1e-300))
-    return _plsr_labels(case, [f"pdtype={case['pdtype']}", f"fit_int={case['fit_int']}"])
+    return _plsr_labels(case, [f"pdtype={case['pdtype']}", f"fit_int={mode}"])
 
 
 def _cmp_fits(a, b, tag, sx, sy, sc):
